@@ -170,3 +170,71 @@ Proof.
            (le_S _ _ (le_S _ _ (le_S _ _ (le_n 1)))) H1 H2 H3 H4 H).
 Qed.
 Print Assumptions C09C_nonvacuous_instance.
+
+(* ---- the censored singleton route ----------------------------------------------------------------------------------
+   A k-mer table T (tbl_ok; extension bits = membership in a link set S', extensions towards absent k-mers allowed;
+   payload of an entry = (colour, [id]) of its key) is a one-k-mer-per-node graph.  Re-compressing it with the censor list
+   c gives the same assembly as compress_kmers of the table from which the censored entries were deleted and whose
+   extensions were pruned (remove_censored_exts): deleting k-mers before or after building the graph is the same.
+   (Formerly only checker-level: chk.c09.singleton_route, and only without censoring as a theorem: C09_singleton_route.) *)
+From DBG Require Spec.CompressSpec Proofs.E2eDefs Proofs.RecompCensorTable.
+
+Theorem C09C_table_lgraph_ok : forall K st, (1 <= K)%nat ->
+  forall (kj : dna -> dna -> bool) (T : Compress.table GraphCheck.pay) (S' : list dna),
+  CompressSpec.tbl_ok GraphCheck.pay K st T -> E2eDefs.links_loose GraphCheck.pay st T S' -> LooseGraph.lgraph_ok K st kj S' T.
+Proof. exact RecompCensorTable.table_lgraph_ok_tbl. Qed.
+Print Assumptions C09C_table_lgraph_ok.
+
+Theorem C09C_censor_eq_filter :
+  forall K st mode (idf colf : dna -> N) (T : Compress.table GraphCheck.pay) (S' SL : list dna) (c : list nat)
+         (out g2 : list GraphCheck.node_t),
+  (1 <= K)%nat -> CompressSpec.tbl_ok GraphCheck.pay K st T -> E2eDefs.links_loose GraphCheck.pay st T S' ->
+  (forall ent, In ent T -> Compress.e_data GraphCheck.pay ent =
+                           (colf (Compress.e_key GraphCheck.pay ent), [idf (Compress.e_key GraphCheck.pay ent)])) ->
+  (forall w, In w SL <-> In w S' /\
+     LooseValid.both_in K st (fun k => In k (PipelineCheck.graph_kmers K st (RecompCensor.surv_nodes T c))) w) ->
+  (forall w, In w SL -> exists v, wf_dna v /\ length v = S K /\ w = PipelineCheck.cn st v) ->
+  compress_graph GraphCheck.pay GraphCheck.pay_reduce (GraphCheck.pay_join mode) K st T (Some c) = Some out ->
+  Compress.compress_kmers GraphCheck.pay GraphCheck.pay_reduce (GraphCheck.pay_join mode) st
+    (remove_censored_exts GraphCheck.pay st (RecompCensor.surv_nodes T c)) = Some g2 ->
+  PipelineCheck.same_assembly K st mode out g2.
+Proof. exact RecompCensorTable.censor_eq_filter. Qed.
+Print Assumptions C09C_censor_eq_filter.
+
+(* non-vacuity: the graph of C09C_nonvacuous IS such a table; with the censor list [7;1;7;99] both routes give
+   AACT | CTCCGATG (here even literally the same graph) *)
+From DBG Require Check.CompressHyp Proofs.CompressHypProofs.
+Example C09C_nonvacuous_table :
+  CompressSpec.tbl_ok GraphCheck.pay 4 false C09C_G /\ E2eDefs.links_loose GraphCheck.pay false C09C_G C09C_S' /\
+  (forall ent, In ent C09C_G -> Compress.e_data GraphCheck.pay ent = (0%N, [C09C_idf (Compress.e_key GraphCheck.pay ent)])) /\
+  remove_censored_exts GraphCheck.pay false (RecompCensor.surv_nodes C09C_G C09C_c) =
+    [([0;0;1;3], 0, (0, [7])); ([1;3;1;1], 64, (0, [117])); ([1;2;2;0], 72, (0, [104])); ([1;1;2;0], 136, (0, [88]));
+     ([0;3;1;2], 66, (0, [54])); ([1;0;3;1], 64, (0, [77]))]%N /\
+  Compress.compress_kmers GraphCheck.pay GraphCheck.pay_reduce (GraphCheck.pay_join 0) false
+    (remove_censored_exts GraphCheck.pay false (RecompCensor.surv_nodes C09C_G C09C_c)) =
+    Some [([0;0;1;3], 0, (0, [7])); ([1;3;1;1;2;0;3;2], 0, (0, [117; 104; 88; 54; 77]))]%N /\
+  forall out g2,
+    compress_graph GraphCheck.pay GraphCheck.pay_reduce (GraphCheck.pay_join 0) 4 false C09C_G (Some C09C_c) = Some out ->
+    Compress.compress_kmers GraphCheck.pay GraphCheck.pay_reduce (GraphCheck.pay_join 0) false
+      (remove_censored_exts GraphCheck.pay false (RecompCensor.surv_nodes C09C_G C09C_c)) = Some g2 ->
+    PipelineCheck.same_assembly 4 false 0 out g2.
+Proof.
+  destruct C09C_nonvacuous as (H1 & H2 & H3 & H4 & _).
+  assert (Hok : CompressSpec.tbl_ok GraphCheck.pay 4 false C09C_G)
+    by (apply CompressHypProofs.tbl_okb_sound; vm_compute; reflexivity).
+  assert (HL : E2eDefs.links_loose GraphCheck.pay false C09C_G C09C_S').
+  { apply (RecompCensorTable.lgraph_table_links_loose 4 false (PipelineCheck.kjoin_f 0 (fun _ => 0%N))).
+    - now apply RecompCensorTable.tbl_entries_ok.
+    - now apply RecompCensorCheck.lgraph_okb_sound. }
+  assert (Hd : forall ent, In ent C09C_G -> Compress.e_data GraphCheck.pay ent = (0%N, [C09C_idf (Compress.e_key GraphCheck.pay ent)])).
+  { intros ent He. vm_compute in He. repeat (destruct He as [<-|He]; [vm_compute; reflexivity|]). destruct He. }
+  split; [exact Hok|]. split; [exact HL|]. split; [exact Hd|]. split; [vm_compute; reflexivity|]. split; [vm_compute; reflexivity|].
+  intros out g2 Hc Hk.
+  apply (RecompCensorTable.censor_eq_filter 4 false 0 C09C_idf (fun _ => 0%N) C09C_G C09C_S'
+           (RecompCensorCheck.links_between 4 false C09C_S' (PipelineCheck.graph_kmers 4 false (RecompCensor.surv_nodes C09C_G C09C_c)))
+           C09C_c out g2 (le_S _ _ (le_S _ _ (le_S _ _ (le_n 1)))) Hok HL Hd); auto.
+  - intro w. apply RecompCensorCheck.links_between_spec.
+  - intros w Hw. apply RecompCensorCheck.links_between_spec in Hw as [Hw _].
+    exact (RecompCensorCheck.links_wfb_sound 4 false C09C_S' H3 w Hw).
+Qed.
+Print Assumptions C09C_nonvacuous_table.
